@@ -310,6 +310,15 @@ fn c13_core(ctx: &mut Ctx) {
         }
         c13_case(ctx, &json!({"reduce": [coll, {"log": {"cat": [var("accumulator"), "<", var("current")]}}, p.wrap(json!("I"))]}), &outer, true);
     }
+    for e in [json!({"in": [1]}), json!({"substr": ["x"]}), json!({">": []}), json!({"var": [1, 2, 3]}), json!({"!": []}), json!({"reduce": [[1], 1]}), json!({"if": [{"/": [1]}, 1]}), json!({"log": "never"}), json!({"/": [1, 0]}), json!("const"), json!({"zz": [1]}), json!({"map": [[1], {"in": []}]})] {
+        for op in ["map", "filter", "reduce"] {
+            idx += 1;
+            if ctx.mine(idx) {
+                c13_null_is_empty(ctx, op, &e, Some(&json!({"log": "init"})), &outer);
+                c13_null_is_empty(ctx, op, &e, None, &outer);
+            }
+        }
+    }
     ctx.exhaustive_parts.push("25 collections x 16 element expressions (map, filter), 20 collections x 14 fold expressions x 9 initial values (reduce)".into());
     // random nesting
     let n = ctx.budget(5_000, 700_000);
@@ -328,8 +337,43 @@ fn c13_core(ctx: &mut Ctx) {
         if i % 3 == 0 {
             c13_self_laws(ctx, op, &rule, &d, &out);
         }
+        if i % 4 == 0 {
+            let init = rule[op].get(2).cloned();
+            c13_null_is_empty(ctx, op, &e, init.as_ref(), &d);
+        }
         if i % 400 == 0 {
             ctx.sample(json!({"rule": rule, "data": d}));
+        }
+    }
+}
+
+/// "A null collection is treated as empty" (needs no model): with the same expression and initial
+/// value, a null collection and an empty array give the same outcome - the same value, or an error
+/// in both cases - and the same lines, whether null / [] are written literally or computed. This
+/// also holds where the statements leave the outcome itself open (an expression that is malformed
+/// as read and never evaluated).
+fn c13_null_is_empty(ctx: &mut Ctx, op: &str, e: &Value, init: Option<&Value>, d: &Value) {
+    let data = json!({"outer": d, "nul": null, "empty": []});
+    let mk = |coll: Value| -> Value {
+        match init {
+            Some(i) if op == "reduce" => json!({ op: [coll, e, i] }),
+            _ if op == "reduce" => json!({ op: [coll, e, 0] }),
+            _ => json!({ op: [coll, e] }),
+        }
+    };
+    let variants = [mk(Value::Null), mk(json!([])), mk(json!({"var": "nul"})), mk(json!({"var": "empty"})), mk(json!({"var": "absent"}))];
+    let obs: Vec<crate::observe::Obs> = variants.iter().map(|r| ctx.observe(r, &data)).collect();
+    ctx.mon("c13.null-is-empty").observed += 1;
+    ctx.mon("c13.null-is-empty").judged += 1;
+    for k in 1..obs.len() {
+        let same = match (&obs[0].out, &obs[k].out) {
+            (Outcome::Ok(a), Outcome::Ok(b)) => a.to_string() == b.to_string(),
+            (Outcome::Err(_), Outcome::Err(_)) => true,
+            _ => false,
+        } && obs[0].logs == obs[k].logs;
+        if !same {
+            ctx.violation("c13.null-is-empty", &format!("null-vs-empty:{}:{}", op, k), &variants[k], &data, json!({"with a literal null collection": obs[0].out.brief(), "lines": obs[0].logs}), json!({"out": obs[k].out.brief(), "lines": obs[k].logs}), "a null collection and an empty collection (literal / computed) do not behave alike");
+            break;
         }
     }
 }
@@ -353,7 +397,10 @@ fn c13_self_laws(ctx: &mut Ctx, op: &str, rule: &Value, d: &Value, out: &Outcome
     if crate::refsem::statically_invalid(rule) {
         return;
     }
-    let els: Vec<Value> = match ctx.observe(&args[0], d).out {
+    let mut step_lines: Vec<String> = Vec::new();
+    let coll_obs = ctx.observe(&args[0], d);
+    step_lines.extend(coll_obs.logs.iter().cloned());
+    let els: Vec<Value> = match coll_obs.out {
         Outcome::Ok(Value::Array(a)) => a,
         Outcome::Ok(Value::Null) => vec![],
         _ => return, // error / non-collection: left to the model
@@ -366,7 +413,9 @@ fn c13_self_laws(ctx: &mut Ctx, op: &str, rule: &Value, d: &Value, out: &Outcome
             let mut r = Vec::new();
             for el in els.iter() {
                 let probe = if op == "map" { args[1].clone() } else { json!({"!!": [args[1].clone()]}) };
-                match ctx.observe(&probe, el).out {
+                let o = ctx.observe(&probe, el);
+                step_lines.extend(o.logs.iter().cloned());
+                match o.out {
                     Outcome::Ok(v) => {
                         if op == "map" {
                             r.push(v)
@@ -387,7 +436,9 @@ fn c13_self_laws(ctx: &mut Ctx, op: &str, rule: &Value, d: &Value, out: &Outcome
         }
         _ => {
             // the initial value is evaluated against the outer data
-            let mut acc = match ctx.observe(&args[2], d).out {
+            let init_obs = ctx.observe(&args[2], d);
+            step_lines.extend(init_obs.logs.iter().cloned());
+            let mut acc = match init_obs.out {
                 Outcome::Ok(v) => Some(v),
                 Outcome::Err(_) => None,
                 Outcome::Panic(_) => return,
@@ -397,7 +448,9 @@ fn c13_self_laws(ctx: &mut Ctx, op: &str, rule: &Value, d: &Value, out: &Outcome
                     if crate::refsem::nested_deeper_than(&a, 100) {
                         return;
                     }
-                    match ctx.observe(&args[1], &json!({"current": el, "accumulator": a})).out {
+                    let o = ctx.observe(&args[1], &json!({"current": el, "accumulator": a}));
+                    step_lines.extend(o.logs.iter().cloned());
+                    match o.out {
                         Outcome::Ok(v) => a = v,
                         Outcome::Err(_) => {
                             failed = true;
@@ -424,6 +477,18 @@ fn c13_self_laws(ctx: &mut Ctx, op: &str, rule: &Value, d: &Value, out: &Outcome
             None => json!({"err": "some step is an error"}),
         };
         ctx.violation(mon, &format!("stepwise:{}", op), rule, d, exp, out.brief(), "the operator disagrees with evaluating its collection and then its element expression step by step through the implementation itself");
+        return;
+    }
+    // the lines printed: on success, the operator prints what its steps print (as a multiset: the
+    // order between the collection and the initial value is not fixed by the statement)
+    if expected.is_some() && crate::observe::capture_active() {
+        let whole = ctx.observe(rule, d);
+        let mut got = whole.logs.clone();
+        got.sort();
+        step_lines.sort();
+        if got != step_lines {
+            ctx.violation(mon, &format!("stepwise-lines:{}", op), rule, d, json!({"lines printed by the steps": step_lines.len()}), json!({"lines printed by the operator": got.len()}), "the operator does not print what its collection, initial value and element steps print when evaluated one by one through the implementation itself");
+        }
     }
 }
 
@@ -780,11 +845,13 @@ pub fn c04(ctx: &mut Ctx) {
 pub fn c05(ctx: &mut Ctx) {
     c05_core(ctx);
     crate::props_sizes::c05(ctx);
+    crate::props_far::c05(ctx);
 }
 
 pub fn c13(ctx: &mut Ctx) {
     c13_core(ctx);
     crate::props_sizes::c13(ctx);
+    crate::props_far::c13(ctx);
 }
 
 pub fn c14(ctx: &mut Ctx) {
